@@ -118,6 +118,8 @@ structure World where
   lastSsz : List UInt8 × List UInt8 := ([], [])
   lastSer : List V × List V := ([], [])
   lastLv : Nat × List Nat := (0, [])
+  /-- memo of `leafHash` by value for the spec side (unpacked kinds whose element root is costly) -/
+  leafCache : Std.HashMap ByteArray ByteArray := {}
 
 def World.init (E : Elem V Hh) (cfg : Cfg) : World :=
   { E := E, cfg := cfg, heap := Heap.empty, colls := [], trees := [], builders := [], scolls := [],
@@ -152,10 +154,16 @@ partial def dumpTree (w : World) (t : Tree V) (st : DumpState) : DumpState :=
 
 /-! ## Spec helpers -/
 
-def specRoot (w : World) (s : SColl) : Hh :=
-  match s.kind with
-  | .list => Spec.listRoot w.E alg mixIn w.cfg.N s.xs
-  | .vector => Spec.vectorRoot w.E alg w.cfg.N s.xs
+/-- the spec root; element roots are memoised by value across calls (pure caching: the cached
+value is `E.leafHash v`). Returns the extended cache. -/
+def specRoot (w : World) (s : SColl) : Hh × Std.HashMap ByteArray ByteArray :=
+  let cache := if w.E.pf.isSome then w.leafCache else
+    s.xs.foldl (fun c v => if c.contains v then c else c.insert v (w.E.leafHash v)) w.leafCache
+  let E' : Elem V Hh := { w.E with leafHash := fun v => (cache.get? v).getD (w.E.leafHash v) }
+  let r := match s.kind with
+    | .list => Spec.listRoot E' alg mixIn w.cfg.N s.xs
+    | .vector => Spec.vectorRoot E' alg w.cfg.N s.xs
+  (r, cache)
 
 /-- independent SSZ decoder for the spec side: accepts exactly the canonical encodings. -/
 def specDecode (E : Elem V Hh) (bs : List UInt8) : Option (List V) :=
@@ -694,8 +702,10 @@ def step (w : World) (line : String) : World × Out :=
         let (w1, m) : World × String := match Coll.treeHashRoot E alg mixIn c w.heap with
           | .ok (r, heap) => ({ w with heap := heap }, s!"ok {hexOfBytes r}")
           | .error e => (w, fmtErr e)
-        let sp := if s.dirty then "panic" else s!"ok {hexOfBytes (specRoot w s)}"
-        (w1, (m, sp))
+        if s.dirty then (w1, (m, "panic"))
+        else
+          let (r, cache) := specRoot w s
+          ({ w1 with leafCache := cache }, (m, s!"ok {hexOfBytes r}"))
       | _, _ => badop
     | none => badop
   | ["eq", h1, h2] =>
